@@ -541,7 +541,7 @@ func ip16(ip net.IP) [16]byte {
 }
 
 func diffNetAddr(a, b *wire.NetAddress, withTime bool) string {
-	if withTime && uint32(a.Timestamp.Unix()) != uint32(b.Timestamp.Unix()) {
+	if withTime && a.Timestamp.Unix() != b.Timestamp.Unix() {
 		return "Timestamp"
 	}
 	if a.Services != b.Services {
@@ -707,7 +707,7 @@ func diff(want, got wire.Message, pver uint32) string {
 				return "Headers.PrevBlock"
 			case a.MerkleRoot != b.MerkleRoot:
 				return "Headers.MerkleRoot"
-			case uint32(a.Timestamp.Unix()) != uint32(b.Timestamp.Unix()):
+			case a.Timestamp.Unix() != b.Timestamp.Unix():
 				return "Headers.Timestamp"
 			case a.Bits != b.Bits:
 				return "Headers.Bits"
